@@ -160,6 +160,8 @@ T('c11-ext', 'A ::= SEQUENCE { a INTEGER (0..7, ...), s IA5String (SIZE(1, ...))
 T('c12-paths', 'A ::= SEQUENCE { a INTEGER (0..7), b SEQUENCE (SIZE(0..2)) OF B, c CHOICE { p INTEGER (0..3), q E }, ..., '
   '[[ g SEQUENCE OF CHOICE { r B, s BOOLEAN } ]] }\nB ::= SEQUENCE { x INTEGER (0..300), e E OPTIONAL }\n'
   'E ::= ENUMERATED { one, two }', feats={'constraint', 'path'})
+T('c13-enum-default', 'A ::= SEQUENCE { e ENUMERATED { x(3), y(7), z(9) } DEFAULT y, f E DEFAULT b, n INTEGER (0..7) }\n'
+  'E ::= ENUMERATED { a, b, ..., c }', feats={'enum', 'opt'})
 T('combo-default-shared', 'A ::= SEQUENCE { lo Low, hi High }\n'
   'Low ::= SEQUENCE { id INTEGER (0..7), level Level DEFAULT 1 }\n'
   'High ::= SEQUENCE { id INTEGER (0..7), level Level DEFAULT 9 }\nLevel ::= INTEGER (0..15)',
